@@ -14,7 +14,7 @@ CHECKS = {
   note="Trusted: ref/unify and the conservative STO detector (pairs subject to occurs check are skipped for =/2, as ISO leaves them undefined).",
   design="DESIGN.md §3 C02"),
  "C03": dict(
-  technique="bounded-exhaustive enumeration of control skeletons (all clause bodies up to a length bound over 41 item shapes incl. every opaque wrapper (call/N, \\+, once, findall, bagof, setof, catch, call_nth), x clause layouts x 14 calling contexts, plus a sweep of the recursion depth between call and cut) on the real interpreter; answer sequence and execution trace compared with an ISO reference machine",
+  technique="bounded-exhaustive enumeration of control skeletons (all clause bodies up to a length bound over 46 item shapes incl. every opaque wrapper (call/N, \\+, once, findall, bagof, setof, catch, call_nth), x clause layouts x 14 calling contexts, plus a sweep of the recursion depth between call and cut) on the real interpreter; answer sequence and execution trace compared with an ISO reference machine",
   text="Every skeleton is loaded into a fresh real interpreter and run in every calling context; generators write one character per clause tried, so the comparison with the reference machine (ISO cut barriers, call/N opaque) covers both the answers and exactly which alternatives were retried. A depth sweep puts every stack size 0..72 between the call and the cut. Exhaustive within the bounds.",
   note="Trusted: ref/solve's cut semantics (self-checked against ISO 7.8.4 examples). Cut placements inside nested ;/,/-> are excluded as the property states.",
   design="DESIGN.md §3 C03"),
